@@ -14,9 +14,9 @@ META["C01"] = {
   "note": "Trusted: VC generator, z3, float order modelled over reals (only max/compare/copy on costs), weights as uninterpreted DFN/PRE with the statement's hypotheses as preconditions, cardinality lemmas by emitted induction queries; the final step from (closure, attainment along an acyclic predecessor chain) to 'minimum over all paths' is a two-line pencil argument.",
   "technique": TECH}
 META["C02"] = {
-  "text": "Deductive part: contracts on every function prototype selection runs through are discharged (existence of a prototype for >= 2 classes, frame of _find_prototypes, prototypes keep cost 0 / NIL / own label through fit). The MST characterisation itself (Prim certificate, boundary endpoints) is currently decided by a bounded run-time contract: real fits on generated graphs with n <= 6 compared against all minimum spanning trees; the cut property is cited.",
-  "design_ref": "DESIGN.md §3 C02",
-  "note": "Level `other`: proved clauses and bounded clauses are itemised in the evidence; bounded results are never counted as discharged. Cited, unchecked: a spanning tree built by repeatedly adding a lightest cut-crossing arc is minimum (CLRS Thm 23.1).",
+  "text": "SupervisedOPF._find_prototypes is under a contract that states Prim's certificate on the real loop, with ghost state only (removal rank and its inverse, a witness arc per prototype, a same-class prototype per removed node): the key of a queued node is its lightest arc to the removed set and pred is the other end; every tree arc was a lightest arc across the cut {removed earlier} | {rest}; prototypes are exactly the endpoints of tree arcs joining different labels; every class met has a prototype. The invariants are inductive and all obligations generated from the real source (heap calls by contract, index safety, frame) are discharged by z3 for all sizes, labelings and tie patterns. Posts: spanning tree rooted at node 0 with rank-decreasing predecessors, cut certificate, prototype <=> boundary endpoint (both directions), a prototype of every class. fit / semi-supervised fit keep each prototype at cost 0, predecessor NIL, own label (proved, C01/C15 invariants).",
+  "design_ref": "DESIGN.md §3 C02, §7.2",
+  "note": "Cited, not mechanised: the cut property (such a certificate implies a minimum spanning tree, unique for distinct weights; CLRS Thm 23.1). Bounded cross-check (never counted as discharged): real fits on generated graphs with n <= 6 against the boundary-endpoint sets of all minimum spanning trees.",
   "technique": TECH}
 META["C03"] = {
   "text": "SupervisedOPF.predict (inherited unchanged by the semi-supervised model) is under contract with ghost witnesses: the scan invariant says min_cost is the minimum of max(cost, d) over the prefix of the conquest order and is attained by the tracked sample; the early exit is justified by sortedness; surjectivity of the order turns the prefix into all training samples. All obligations discharged for every forest satisfying fit's postcondition and every query; no symmetry of the metric is assumed.",
